@@ -193,3 +193,24 @@ def run(ctx):
                            "lookup_index can answer Some(empty list): the index seek then returns no rows instead of falling back to the scan, although nodes the "
                            "index does not (yet) contain match", "%s:%d" % (lb.file, st[3]))
     ctx.floor("C15.6", "Some(..) returns of lookup_index", n6, 1)
+
+    # ---- clause 7: the index is named after the creation label ------------------------------------------------------------
+    # Index maintenance at commit files an existing node under "<primary label>.<key>", and the primary label comes from
+    # GraphSnapshot::node_label.  Index entries written earlier (and the planner's IndexSeek) use the label the node was created with, which
+    # is what the node-table record stores.  If node_label answers from the node's *current* label list instead, the primary label drifts
+    # when a label with a smaller id is added: later SETs update another (or no) index and the seek misses the node.
+    ctx.rule("C15.7", "StorageSnapshot::node_label answers from the node-table record (I2eRecord.label_id, the creation label), not from the live label list")
+    nid = F.impl_method("nervusdb_api::GraphSnapshot", "nervusdb_storage::api::StorageSnapshot", "node_label")
+    nlb = ctx.body(nid or "StorageSnapshot::node_label")
+    import json as _json
+    reads_record = False
+    for i2, b2 in [(nid, nlb)] + [(x, F.bodies[x]) for x in F.bodies if F.bodies[x].root == nid]:
+        for blk in b2.blocks:
+            for st in blk["s"]:
+                if st[0] == "a" and '"label_id"' in _json.dumps(st) and "I2eRecord" in _json.dumps(st):
+                    reads_record = True
+    delegates = [c.name for c in nlb.calls() if c.name.endswith("::node_label") or c.name.endswith("::resolve_node_labels") or "i2l" in c.name]
+    ctx.instance("C15.7", "StorageSnapshot::node_label reads I2eRecord.label_id=%s; delegates to %s" % (reads_record, [d.split("::")[-2:] for d in delegates] or "nothing"))
+    ctx.oblige(reads_record and not delegates, "C15.7", "StorageSnapshot::node_label:not-creation-label",
+               "node_label no longer answers with the creation label stored in the node-table record: the label under which commit maintains a node's index "
+               "entries drifts when labels are added or removed, and IndexSeek misses rows a scan returns", nlb.file)
